@@ -123,6 +123,9 @@ def check(ctx):
     storm_stage(ctx, thorough)
     n = 200000 if thorough else 8000
     for proto, pairs in fuzzrun.all_protocols(ctx, thorough, n, True, 1 if thorough else 3):
+        kept = []
         for job, r in pairs:
             judge(ctx, proto, job, r)
-        sample(ctx, proto, pairs)
+            if len(kept) < 3000:
+                kept.append((job, r))
+        sample(ctx, proto, kept)
